@@ -13,7 +13,7 @@ from .c02 import inexact_nodes
 
 PROP = "C03"
 
-DTYPE = [("x", "f8"), ("y", "f8"), ("c", "U3"), ("s", "f8"), ("b", "U3"), ("v", "f8", (2,))]
+DTYPE = [("x", "f8"), ("y", "f8"), ("c", "U8"), ("s", "f8"), ("b", "U8"), ("v", "f8", (2,))]  # (U8: "entries" must fit)
 
 
 def to_batch(recs, rep="rec"):
